@@ -52,6 +52,20 @@ CLAIMED = {
  "C14": dict(text="Lean theorems prove, for every sequence / quality string: the poly-A/poly-T index is the shortest tail/head with maximal positive score among those with <= 20% other bases and at least 3 characters (polyA_removed/kept, polyT_removed/kept); --trim-n removes exactly the maximal N runs (trimN_spec, trimN_end_maximal); the N count counts n and N (nCount_spec); the unrolled expected-error accumulation equals the plain sum in any commutative associative arithmetic (accumulate_eq_sum, ee_exact), phred validity (phredOf_spec), and the generated table equals 10^(-q/10) to 1e-13 (table_accurate, table_bits_exact, kernel computation). Bit-exact Float correspondence ties the model to the C code; IEEE rounding of the running sums is outside the theorem.",
              ref="§7 C14", technique="Lean 4 proof (scan invariants, decide +kernel on the regenerated phred table) + bit-exact model/implementation correspondence"),
 }
+EXTRA_TEXT = {
+ "C05": " Added: PairedEndRenamer keeps the ids of the mates matched (paired_rename_keeps_ids_matched); --pair-adapters ranks with repeated sequences; interleaved untrimmed stream.",
+ "C06": " Added: Statistics.__iadd__ and the per-adapter __iadd__ methods are modelled concretely (StatsMerge.lean) and proved to add: merging the statistics of the chunks of any "
+        "chunking, in any order, gives the figures of the whole run (merged_statistics_of_any_chunking, merged_statistics_order_independent, statistics_merge_comm_assoc, "
+        "merged_adapter_statistics), which discharges the monoid hypothesis for cutadapt's counters; tied to the code by the driver ops statsmerge/adaptermerge against `a += b` on real Statistics objects.",
+ "C07": " Since fix 6bb8dc0 (short reads of adapters that search both overlap directions bypass the finder) prefilter_safe_partial holds for every ASCII read without NUL; one known finding remains (NUL byte vs N wildcard).",
+ "C10": " Added: PairedEndRenamer (rn, r1./r2. fields, id checks) and tokenize_braces are modelled; paired_rename_spec, paired_rename_placeholders, tokenize_sound; stepwise oracle "
+        "(the run with all options equals a chain of one run per documented stage).",
+}
+TECH = {"C07": "Lean 4 proof (bit-parallel invariant, pigeonhole over edit scripts) + correspondence; partial: NUL bytes in reads are outside the theorem (one known finding)"}
+for k, v in EXTRA_TEXT.items():
+    CLAIMED[k]["text"] += v
+for k, v in TECH.items():
+    CLAIMED[k]["technique"] = v
 OBL = json.load(open(os.path.join(VERIF, "lean", "obligations.json")))
 HOLD = set(os.environ.get("VERIF_HOLD", "").split(","))     # properties whose check is being reworked right now
 CLAIMED = {k: v for k, v in CLAIMED.items() if len(OBL.get(k, [])) >= 1 and k not in HOLD}
